@@ -1,6 +1,8 @@
 package checks
 
 import (
+	v1 "github.com/DataDog/extendeddaemonset/api/v1alpha1"
+
 	"testing"
 
 	"verif/mc/h"
@@ -26,7 +28,13 @@ func TestC13(t *testing.T) {
 	s3 := corpusS3(n, "1", "auto", b-1, editsCanary)
 	s2f := corpusS2([]string{"n1"}, "1", 2, editsFaults)
 	s2f.name = "S2-edits-with-faults"
-	scs := []scOpt{s2, s3, s2f}
+	// the ExtendedDaemonSet object itself carries a (stale) templatehash annotation, e.g. a manifest rebuilt from one of
+	// its replica sets or from its PodTemplate: the controller's own hash must still win everywhere
+	ta := w.Tpl("A")
+	s2h := corpusS2([]string{"n1"}, "1", 2, &w.Alpha{PT: true, Templates: []string{"A", "B"}})
+	s2h.name = "S2-edits-object-carries-hash-annotation"
+	s2h.eds = append(s2h.eds, w.WithAnnotation(v1.MD5ExtendedDaemonSetAnnotationKey, w.TemplateHash(&ta)))
+	scs := []scOpt{s2, s3, s2f, s2h}
 	runWorld(t, run, scs, []func(*w.MonCtx){w.MonC13}, 0)
 	requireAntecedents(run, "C13/create", "C13/delete", "C13/podtemplate")
 	c13Lattice(t, run)
